@@ -333,7 +333,7 @@ func undefModeShapes(tier string) []string {
 func shapeBounds(extra map[string]interface{}) func(tier string) map[string]interface{} {
 	return func(tier string) map[string]interface{} {
 		maxM, _ := shapeTierParams(tier)
-		b := map[string]interface{}{"shapes": "all typed shapes with ≤" + itoa(maxM) + " internal nodes (leaf variants: all variables, each single leaf a symbolic constant, all constants, one literal, one variable repeated in every position of its sort) + jump-stress family",
+		b := map[string]interface{}{"shapes": "all typed shapes with ≤" + itoa(maxM) + " internal nodes (leaf variants: all variables, each single leaf a symbolic constant, all constants, one literal, one variable repeated in every position of its sort; the single-operator shapes also with < <= >= ge le != eq ne - % mod in place of > = + /) + jump-stress family",
 			"registration":   "variables registered with explicit keys; C02–C05 also run the shapes with ≤1 (thorough ≤2) internal nodes with nothing registered and AllowUndefinedVariable on",
 			"configurations": "all 16 optimisation subsets per unit"}
 		for k, v := range extra {
@@ -1306,6 +1306,11 @@ func init() {
 				}
 				for _, f := range l1 {
 					units = append(units, Unit{"VerifC20", []string{"1", typ, f}})
+				}
+				if typ == "bool" || tier == "thorough" {
+					// a variable map holding something the generator has no use for, at the level where a
+					// misfiled variable would become an operand
+					units = append(units, Unit{"VerifC20", []string{"1", typ, "vt", "s"}})
 				}
 				if tier == "thorough" {
 					for _, fv := range [][2]string{{"v", ""}, {"v", "n"}, {"v", "b"}, {"vt", ""}, {"vt", "n"}, {"vt", "b"}, {"vt", "d"}, {"vt", "nbds"}} {
